@@ -613,6 +613,26 @@ pub fn run<C: VCtx>(ctx: &C, op: &str, a: &[Value]) -> Value {
             let c2 = pk.encrypt(&C::e_in(&a[1]));
             json!([c_out(&c1), c_out(&c2)])
         }
+        // OS entropy: one shuffle, two proofs of it, two Schnorr proofs by one secret
+        "fresh_shuffle" => {
+            let pk = PublicKey::from_element(&C::e_in(&a[0]), ctx);
+            let es = cs_in::<C>(&a[1]);
+            let gens = ctx.generators(es.len() + 1, b"fresh");
+            let sh = Shuffler::new(&pk, &gens, ctx);
+            let (out, rs, perm) = sh.gen_shuffle(&es);
+            let p1 = sh.gen_proof(&es, &out, &rs, &perm, b"").unwrap();
+            let p2 = sh.gen_proof(&es, &out, &rs, &perm, b"").unwrap();
+            let x = C::x_in(&json!("5"));
+            let s1 = zkp.schnorr_prove(&x, &ctx.gmod_pow(&x), None, b"").unwrap();
+            let s2 = zkp.schnorr_prove(&x, &ctx.gmod_pow(&x), None, b"").unwrap();
+            json!([
+                cs_out::<C>(&out),
+                xs_out::<C>(&rs),
+                perm,
+                [hex_out(&p1.strand_serialize().unwrap()), hex_out(&p2.strand_serialize().unwrap())],
+                [schnorr_out(&s1), schnorr_out(&s2)]
+            ])
+        }
         "fresh_rnd_exp" => {
             let n = usize_in(&a[0]);
             xs_out::<C>(&(0..n).map(|_| ctx.rnd_exp()).collect::<Vec<_>>())
@@ -624,6 +644,16 @@ pub fn run<C: VCtx>(ctx: &C, op: &str, a: &[Value]) -> Value {
                 .ok()
                 .and_then(|c| c.decompress())
                 .is_some())
+        }
+        "raw_from_uniform" => {
+            let b = hex_in(&a[0]);
+            let mut x = [0u8; 64];
+            x.copy_from_slice(&b);
+            hex_out(
+                curve25519_dalek::ristretto::RistrettoPoint::from_uniform_bytes(&x)
+                    .compress()
+                    .as_bytes(),
+            )
         }
         "raw_scalar_canonical" => {
             let b = hex_in(&a[0]);
